@@ -11,7 +11,7 @@ ASSEMBLY_OVERLAY = {
 
 P = {
     "id": "C09",
-    "coq_targets": ["Properties/C09.vo", "Run/Eval_C09.vo"],
+    "coq_targets": ["Properties/C09.vo", "Run/Eval_C09.vo", "C09/Coherence.vo"],
     "theorems_module": "Properties.C09",
     "theorems": ["C09_trust_is_membership", "C09_trust_is_membership_configured", "C09_untrusted_noninterference",
                  "C09_untrusted_connection_only", "C09_untrusted_not_passed_on", "C09_trusted_overrides",
@@ -23,46 +23,74 @@ P = {
         "eval_module": "Run.Eval_C09", "check_term": "check true",
         "n_quick": 1800, "n_thorough": 40000, "findings": {}, "shard": 120,
     }],
-    "rule": "generated trusted_proxies lists (single IPv4/IPv6/IPv4-mapped addresses, CIDR ranges of both families, unparsable "
-            "entries, empty, option absent) x peers (RemoteAddr: IPv4, IPv6, IPv4-mapped, zoned, unix socket, garbage; about half aimed "
-            "into a listed entry) x every subset of the seven forwarded headers with values from per-header pools (valid, empty, "
-            "unparsable, multi-element), repeated headers, arbitrary header-name casing, http/https, three methods, nine paths x five "
-            "queries; raw HTTP/1.1 bytes parsed by net/http and served in-process by the REAL assembled decision and proxy applications "
-            "(fx wiring of cmd/serve, real config loader, rule factory, repository, executor, middleware chain, header finalizer, "
-            "httputil.ReverseProxy to an echo upstream), plus 40 requests per run over real loopback sockets from 127.0.0.x source "
-            "addresses; corpus (finding witnesses) first. Non-trivial = at least one forwarded header present; distinct by hash of the input.",
+    "rule": "per group one pair of trusted_proxies options (decision AND proxy service: not set / empty / 1-4 / 5-30 entries: single "
+            "IPv4/IPv6/IPv4-mapped addresses from a small universe and random ones, CIDR ranges of both families incl. /0, non-canonical "
+            "and IPv4-mapped ones, neighbouring / nested / duplicate ranges, 20 kinds of unparsable entries) x 12 requests: RemoteAddr "
+            "(55 % aimed at an own entry: inside it, in the neighbouring range, one bit off; 10 % at an entry of the OTHER service; random "
+            "IPv4/IPv6; 18 % without host:port or with an unparsable host) x every subset of the seven forwarded headers (values from "
+            "per-header pools incl. empty / unparsable / multi-element / comma lists, 40 % carrying a marker unique to the case; repeated "
+            "lines; arbitrary casing; white space around values) + look-alike names (28 names such as X-Forwarded-Prefix/-Port/-Scheme, "
+            "X-Real-Ip, X-Original-Url, X-Http-Method-Override, Via) x GET/POST/PUT/DELETE/PATCH/HEAD/OPTIONS, bodies, Upgrade: websocket, "
+            "HTTP/1.0, HTTP/2 (in-process), absolute-form targets, http/https, log level info/trace.  Raw bytes parsed by net/http and "
+            "served in-process by the REAL assembled decision and proxy applications (fx wiring of cmd/serve, real config loader, rule "
+            "factory, repository, executor, middleware chain, header finalizer, httputil.ReverseProxy to an echo upstream); every request "
+            "is served a second time WITHOUT the seven headers and all sinks (status, rule, view incl. the complete header map, response, "
+            "upstream request line/Host/headers/body, access log + request dump) are compared and searched for pieces of the forwarded "
+            "values; 40 requests per run over real loopback sockets from 127.0.0.x source addresses; corpus (42 cases: former finding "
+            "witnesses, the auditor's scenarios) first.  Non-trivial = at least one forwarded header present; distinct by hash of the input.",
     "anchors": ["internal/handler/middleware/http/trustedproxy/handler.go", "internal/handler/requestcontext/extract_url.go",
                 "internal/handler/requestcontext/extract_method.go", "internal/handler/requestcontext/request_context.go",
                 "internal/handler/proxy/request_context.go", "internal/handler/decision/service.go",
-                "internal/handler/proxy/service.go", "internal/x/httpx/host_port.go"],
+                "internal/handler/proxy/service.go", "internal/x/httpx/host_port.go",
+                "internal/handler/middleware/http/accesslog/handler.go"],
     "trusted": [
-        "oracles (observed per case, not modelled): net.ParseIP / net.ParseCIDR on entries and peer, net.SplitHostPort on RemoteAddr, "
-        "net/http's request parser (canonical header keys, Host, EscapedPath, RawQuery), url.Parse + Query().Encode() on the "
-        "X-Forwarded-Uri value, url.PathUnescape (URL.Path is checked to be PathUnescape(RawPath) by the driver)",
-        "rule matching is not modelled here (C02/C03): the evaluator knows the harness's fixed rule set (literal paths + catch-all) "
-        "and the theorems quantify over an arbitrary decision function of the view",
-        "httputil.ReverseProxy removes Forwarded/X-Forwarded-For/-Host/-Proto from the outgoing request when Rewrite is set, and "
-        "net/http trims optional white space of header values on the wire (both modelled as observed)",
-        "the assembly harness (harness/assembly): fx application as in cmd/serve, handler obtained through an overlay export of newService",
+        "oracles (observed per case, never code under test): net.ParseIP / net.ParseCIDR on every configured string and on the peer host, "
+        "net.SplitHostPort on RemoteAddr (called by the driver, not through httpx.IPFromHostPort), net/http's request parser (Host, "
+        "EscapedPath, RawQuery; its canonical header keys and value trimming are MODELLED and compared with its answer on every case), "
+        "url.Parse on the X-Forwarded-Uri value (EscapedPath, Query().Encode(), RawQuery); the theorems assume of them what `net_ok` "
+        "says, the evaluator re-checks that on the answers of every case (Request.table_net_ok)",
+        "the configured lists are the strings the driver wrote to the configuration file, not the loaded configuration (that the loader "
+        "delivers the same two options is one compared bit); configuration through environment variables is not exercised (C20)",
+        "rule matching is not modelled (C02/C03): the evaluator knows the harness's seven literal rules and accepts both the case-"
+        "sensitive and the case-insensitive reading of method/scheme/host; the theorems are about the request view",
+        "whole-observation results computed by the driver in Go, not in Coq: `pair` (sinks that differ from the request without the "
+        "seven headers; log lines: access log, request dump, 'Forwarding request' only, volatile fields removed) and `leaks` (sinks in "
+        "which a piece >= 5 bytes of a forwarded value surfaced that the partner request does not show)",
+        "httputil.ReverseProxy removes Forwarded/X-Forwarded-For/-Host/-Proto from the outgoing request when Rewrite is set (modelled as a "
+        "step); hop-by-hop header removal and pipeline headers are outside the model (only the seven names are compared at the upstream, "
+        "list values up to separators, the fresh Forwarded element up to parameter order/quoting)",
+        "the assembly harness (harness/assembly): fx application as in cmd/serve, handler obtained through an overlay export of newService; "
+        "HTTP/2 is a parsed HTTP/1.1 request with ProtoMajor set to 2; socket cases know the peer's host, not its port",
     ],
-    "level_text": "Proof (kernel-checked, no axioms): for every trusted_proxies list, peer address, connection and header multiset, a peer "
-                  "that is not listed (declarative membership: single address = itself with IPv4 == IPv4-mapped IPv6, CIDR by family and "
-                  "mask, unparsable entries/peers cover/are covered by nothing) gets a view built only from the connection and request "
-                  "line, sees none of the seven headers, and the upstream receives one fresh Forwarded header (2-safety non-interference "
-                  "over all pairs of header sets differing in the seven headers); for a listed peer each present non-empty header "
-                  "overrides exactly its component with fallback to the actual request; the middleware's trust test equals membership. "
-                  "No guard: finding C09-F1 was repaired by fix: commit e501d3a; the behaviour of the pinned loader (an unparsable entry "
-                  "made every unparsable peer trusted) is kept as the witnesses C09_F1_pinned_refuted / "
-                  "C09_F1_pinned_noninterference_refuted. The model is tied to the code by "
-                  "running ~2400 (quick) / 60000 (thorough) generated requests per run through the real assembled decision and proxy "
-                  "applications and comparing status, matched rule, echoed view and upstream request with the model inside Coq.",
-    "level_note": "Trusted: Coq kernel/vm_compute; the correspondence harness; IP/CIDR/URL/HTTP parsing are oracles (observed answers as "
-                  "case data); rule matching reduced to the harness's literal rule set; header values restricted to ASCII (strings.TrimSpace "
-                  "is modelled for ASCII white space only). Envoy gRPC mode has no trusted-proxy handling and is outside C09 (see C13). "
-                  "C09-F1 is fixed (fix: e501d3a = fixes/C09-F1.diff); the evaluator runs the repaired variant of the model (`check true`), "
-                  "so a regression of the repair is an ordinary VIOLATION (corpus cases 0, 1, 9, 10 are the former witnesses).",
+    "level_text": "Proof (kernel-checked, no axioms), on what operator and client supply: for either mode, any two trusted_proxies options "
+                  "(strings; not set = empty), any RemoteAddr, request line and header lines (names in any casing, repeated lines): the "
+                  "middleware trusts the peer exactly when a string of THAT service's option reads as the peer's address (IPv4 == IPv4-mapped "
+                  "IPv6) or as a CIDR range of its family containing it (unparsable entries cover nothing, a RemoteAddr without host:port is "
+                  "nobody); for a peer that is not listed the view (method, scheme, host, path, query, client list) is the connection and "
+                  "request line, no line named like one of the seven is visible or passed on, the upstream gets one fresh Forwarded header, "
+                  "and two requests differing only in such lines are served identically (2-safety); for a listed peer each present non-empty "
+                  "header sets its component, the rest falls back to the actual request, and a component depends on no header but its own "
+                  "(frame theorem); the client list is stated with independent characterisations of Split/TrimSpace. No guard: finding "
+                  "C09-F1 was repaired by fix: e501d3a; the pinned loader survives only in the witnesses C09_F1_pinned_refuted / "
+                  "C09_F1_pinned_noninterference_refuted. 9 property theorems + 2 witnesses. The model is tied to the code by ~1800 (quick) / "
+                  "40000 (thorough) generated requests per run through the real assembled decision and proxy applications; inside Coq the "
+                  "model's prediction is compared on the projections the property names, and a predicate written from the specification "
+                  "alone (incl. the driver's 2-safety pair and taint results over the complete observation) is evaluated on the "
+                  "implementation's output; C09/Coherence.v proves that this predicate holds whenever the prediction does.",
+    "level_note": "Trusted: Coq kernel/vm_compute; the correspondence harness (pair/taint comparison is Go code); IP/CIDR/host:port/URL/HTTP "
+                  "parsing are oracles (observed answers as case data, `net_ok` re-checked per case); rule matching reduced to the harness's "
+                  "literal rule set; header values ASCII (strings.TrimSpace modelled for ASCII white space only). What a trusted peer's "
+                  "headers become at the upstream (composition of X-Forwarded-*/Forwarded, all field lines since fix: f228b67) is modelled "
+                  "and compared but not demanded by the property predicate (the statement is silent). NOT covered: the Envoy ext_authz entry "
+                  "point (grpcv3/request_context.go takes the client list from x-forwarded-for metadata with no trust test; the statement "
+                  "names decision and proxy mode; see C13), configuration by environment variables (C20), TLS/HTTP/2 on real sockets, "
+                  "non-ASCII header values. C09-F1 is fixed (fix: e501d3a = fixes/C09-F1.diff); the evaluator runs the repaired variant of the "
+                  "model (`check true`), so a regression is an ordinary VIOLATION (corpus cases 0, 1, 21, 22 are the former witnesses). "
+                  "Examples (hypotheses satisfiable) are compiled with Properties/C09.v but not counted as theorems.",
     "assumptions": [
         "header values are ASCII (Go's TrimSpace also trims Unicode white space; not modelled)",
+        "header names are tokens (net/http rejects other header lines before heimdall sees the request)",
         "X-Forwarded-Path is deleted for untrusted peers but never read by heimdall (no component to override)",
+        "a present but EMPTY forwarded header does not override (docs/operations/security.adoc: empty evaluation result -> actual request)",
     ],
 }
